@@ -1,3 +1,8 @@
 ---------------------------- MODULE MCProtected ----------------------------
 EXTENDS Protected
+\* composite constructors with the same region shapes are one behaviour of the model (the name is only a label):
+\* model checking uses one representative per shape (CompForms <- MCCompForms); the generation configurations keep every name
+MCCompForms == { [f |-> "KeyPair::new_locked_keypair",            lens |-> <<32, 32>>],
+                 [f |-> "SigningKeyPair::new_locked_keypair",     lens |-> <<32, 64>>],
+                 [f |-> "PrecalcSecretKey::precalculate_locked",  lens |-> <<32>>] }
 =============================================================================
